@@ -248,6 +248,11 @@ fn check_fragmentation(rep: &mut Report, thorough: bool) {
 
 /// Minimal authoritative DNS stub over UDP.
 pub async fn dns_stub(names: HashMap<String, Vec<[u8; 4]>>) -> (u16, tokio::task::JoinHandle<()>, Arc<Mutex<Vec<String>>>) {
+    dns_stub_shared(Arc::new(Mutex::new(names)), 300).await
+}
+
+/// The same with a zone that can change while the stub runs, and a chosen record TTL.
+pub async fn dns_stub_shared(names: Arc<Mutex<HashMap<String, Vec<[u8; 4]>>>>, ttl: u32) -> (u16, tokio::task::JoinHandle<()>, Arc<Mutex<Vec<String>>>) {
     let sock = tokio::net::UdpSocket::bind("127.0.0.1:0").await.expect("bind dns stub");
     let port = sock.local_addr().unwrap().port();
     let log = Arc::new(Mutex::new(vec![]));
@@ -280,7 +285,8 @@ pub async fn dns_stub(names: HashMap<String, Vec<[u8; 4]>>) -> (u16, tokio::task
             log2.lock().unwrap().push(format!("{name}/{qtype}"));
             let mut resp = vec![];
             resp.extend_from_slice(&q[0..2]);
-            let known = names.get(&name);
+            let known = names.lock().unwrap().get(&name).cloned();
+            let known = known.as_ref();
             let rcode = if known.is_some() { 0u8 } else { 3u8 };
             resp.extend_from_slice(&[0x84, rcode]); // QR, AA
             resp.extend_from_slice(&[0, 1]);
@@ -289,7 +295,9 @@ pub async fn dns_stub(names: HashMap<String, Vec<[u8; 4]>>) -> (u16, tokio::task
             resp.extend_from_slice(&[0, 0, 0, 0]);
             resp.extend_from_slice(&q[12..qend]);
             for a in answers {
-                resp.extend_from_slice(&[0xc0, 0x0c, 0, 1, 0, 1, 0, 0, 1, 44, 0, 4]);
+                resp.extend_from_slice(&[0xc0, 0x0c, 0, 1, 0, 1]);
+                resp.extend_from_slice(&ttl.to_be_bytes());
+                resp.extend_from_slice(&[0, 4]);
                 resp.extend_from_slice(&a);
             }
             let _ = sock.send_to(&resp, from).await;
@@ -396,6 +404,106 @@ async fn resolution_histories(rep: &mut Report, thorough: bool) {
     }
     rep.sample(json!({"history": hists[hists.len() / 2].iter().map(op_str).collect::<Vec<_>>()}));
     rep.sections.insert("resolution_histories".into(), json!({"depth": depth, "alphabet": alphabet.iter().map(op_str).collect::<Vec<_>>(), "histories_per_branch": hists.len()}));
+    stub.abort();
+}
+
+/// Hosts whose DNS answer changes: after the cache lifetime a request for H is dialled at an address H owns NOW; within
+/// it, at one H owned when the entry was filled (or owns now). Stub TTL 0, so the resolver library itself caches nothing.
+async fn moving_hosts(rep: &mut Report, thorough: bool) {
+    #[derive(Clone, Copy, Debug, PartialEq)]
+    enum M {
+        R(usize),
+        Move,
+        Age,
+        Clear,
+    }
+    let hosts = ["gamma.test", "delta.test"];
+    let sets: [Vec<[u8; 4]>; 2] = [vec![[127, 0, 0, 2]], vec![[127, 0, 0, 6], [127, 0, 0, 7]]];
+    let delta: Vec<[u8; 4]> = vec![[127, 0, 0, 3], [127, 0, 0, 4]];
+    let zone: Arc<Mutex<HashMap<String, Vec<[u8; 4]>>>> = Arc::new(Mutex::new(HashMap::new()));
+    let (dport, stub, _log) = dns_stub_shared(zone.clone(), 0).await;
+    let stub_addr = format!("127.0.0.1:{dport}");
+    let alphabet = [M::R(0), M::R(1), M::Move, M::Age, M::Clear];
+    let depth = if thorough { 6 } else { 5 };
+    let mut hists: Vec<Vec<M>> = vec![vec![]];
+    for _ in 0..depth {
+        let mut next = vec![];
+        for h in &hists {
+            for a in alphabet {
+                // histories that never resolve gamma are pointless
+                let mut n = h.clone();
+                n.push(a);
+                next.push(n);
+            }
+        }
+        hists = next;
+    }
+    hists.retain(|h| h.iter().filter(|o| **o == M::R(0)).count() >= 2 && h.contains(&M::Move));
+    let mstr = |o: &M| match o {
+        M::R(i) => format!("resolve({})", hosts[*i]),
+        M::Move => "gamma moves".to_string(),
+        M::Age => "age61s".to_string(),
+        M::Clear => "clear".to_string(),
+    };
+    for h in &hists {
+        let mut cur = 0usize;
+        {
+            let mut z = zone.lock().unwrap();
+            z.insert(hosts[0].to_string(), sets[0].clone());
+            z.insert(hosts[1].to_string(), delta.clone());
+        }
+        if let Err(e) = set_custom_dns_servers(&[stub_addr.clone()]).await {
+            rep.machinery(format!("cannot configure resolver: {e}"));
+            return;
+        }
+        rep.states += 1;
+        rep.transitions += h.len() as u64;
+        rep.traces_validated += 1;
+        rep.case(Some(&format!("moving:{:?}", h)));
+        // model: the answer each host's cache entry was filled with (None = no live entry)
+        let mut cached: [Option<Vec<[u8; 4]>>; 2] = [None, None];
+        for (step, op) in h.iter().enumerate() {
+            match op {
+                M::R(i) => {
+                    let current: Vec<[u8; 4]> = if *i == 0 { sets[cur].clone() } else { delta.clone() };
+                    let mut allowed = current.clone();
+                    if let Some(c) = &cached[*i] {
+                        allowed.extend(c.iter().copied());
+                    }
+                    match real_timeout(12_000, resolve_host_with_cache(hosts[*i], 4242)).await {
+                        Some(Ok(sa)) => {
+                            let ok = sa.port() == 4242 && allowed.iter().any(|a| IpAddr::from(*a) == sa.ip());
+                            if !ok {
+                                let hist: Vec<String> = h[..=step].iter().map(mstr).collect();
+                                rep.violation("C07:resolver-returns-address-the-host-no-longer-owns", &format!("history [{}]: request for {}:4242 resolved to {sa}; the host's addresses now are {:?}, the live cache entry (if any) was filled with {:?}", hist.join(", "), hosts[*i], current.iter().map(|a| IpAddr::from(*a)).collect::<Vec<_>>(), cached[*i].as_ref().map(|c| c.iter().map(|a| IpAddr::from(*a)).collect::<Vec<_>>())), json!({"engine": "BX", "family": "moving-hosts", "history": hist}));
+                                break;
+                            }
+                            if cached[*i].is_none() {
+                                cached[*i] = Some(current);
+                            }
+                        }
+                        other => {
+                            rep.violation("C07:resolution-failed", &format!("moving hosts: {}: {:?}", hosts[*i], other.map(|r| r.map_err(|e| e.to_string()))), json!({"engine": "BX", "family": "moving-hosts"}));
+                            break;
+                        }
+                    }
+                }
+                M::Move => {
+                    cur = 1 - cur;
+                    zone.lock().unwrap().insert(hosts[0].to_string(), sets[cur].clone());
+                }
+                M::Age => {
+                    verif_age_cache(Duration::from_secs(61)).await;
+                    cached = [None, None];
+                }
+                M::Clear => {
+                    let _ = set_custom_dns_servers(&[stub_addr.clone()]).await;
+                    cached = [None, None];
+                }
+            }
+        }
+    }
+    rep.sections.insert("moving_host_histories".into(), json!({"depth": depth, "histories": hists.len()}));
     stub.abort();
 }
 
@@ -722,8 +830,9 @@ pub fn run(tier: Tier) -> i32 {
     let rt = rt_multi();
     rt.block_on(async {
         resolution_histories(&mut rep, thorough).await;
+        moving_hosts(&mut rep, thorough).await;
         dial_cases(&mut rep).await;
     });
     drop(rt);
-    rep.finish("IX/DET: destinations {5 IPv4, 5 IPv6} x boundary ports, every domain length 1..=256 (ASCII and multi-byte), almost-addresses, port sweep (thorough: all 65536 ports x 3 address types) through the real Client::create_proxy_stream and the real server-side parser; destination header cut into <=3 frames at every position; UDP associations: the target named in the initial request written by the real Client::create_udp_proxy (in-memory dialer seam) for 17 (23) address shapes x boundary ports; BX: every resolve/age/clear history up to depth 3 (4) on both resolver branches; SEMI: every (name|literal, listener) pair through the real TcpProxyHandler incl. names containing the UDP magic string; non-trivial = distinct destination / cut pattern / history with >= 2 distinct (host,port) requests / dial request")
+    rep.finish("IX/DET: destinations {5 IPv4, 5 IPv6} x boundary ports, every domain length 1..=256 (ASCII and multi-byte), almost-addresses, port sweep (thorough: all 65536 ports x 3 address types) through the real Client::create_proxy_stream and the real server-side parser; destination header cut into <=3 frames at every position; UDP associations: the target named in the initial request written by the real Client::create_udp_proxy (in-memory dialer seam) for 17 (23) address shapes x boundary ports; BX: every resolve/age/clear history up to depth 3 (4) on both resolver branches, plus every history of depth 5 (6) over {resolve gamma, resolve delta, gamma's DNS answer changes, age, clear} (stub TTL 0); SEMI: every (name|literal, listener) pair through the real TcpProxyHandler incl. names containing the UDP magic string; non-trivial = distinct destination / cut pattern / history with >= 2 distinct (host,port) requests / dial request")
 }
